@@ -3,6 +3,7 @@ import LolHtml.Model.TagCfg
 import LolHtml.Model.TreeSim
 import LolHtml.Gen.Tags
 import LolHtml.Lemmas.NameHash
+import LolHtml.Lemmas.Guard
 /-!
 # C03 — name hashes, ambiguity guard, tree-builder simulator
 
@@ -186,5 +187,137 @@ example : NameHash.ofBytes [102, 111, 114, 101, 105, 103, 110, 111, 98, 106, 101
   have := (C03_hash_empty_iff 102 [111, 114, 101, 105, 103, 110, 111, 98, 106, 101, 99, 116]
     (by decide) (by decide +kernel)).1 h
   revert this; decide +kernel
+
+
+/-! ## 3. Ambiguity guard -/
+
+open LolHtml.Spec.Guard (Ev)
+
+/-- Side condition of the guard theorems, on the translated tables: `template` is not a
+text-mode-switching tag. -/
+theorem C03_guard_side_gen : Lemmas.Guard.Side Gen.Tags.cfg := by decide +kernel
+
+/-- **When exactly `track_start_tag` refuses a tag** (any table with `template ∉ guardTextSwitch`,
+any guard state, reachable or not): iff the tag is text-mode switching and the state is
+`InSelect` (tag ≠ script, tag not one of the select-exit tags select/textarea/input/keygen), or
+`InTemplateInSelect`, or `InOrAfterFrameset` (tag ≠ noframes). The error names the tag. -/
+theorem C03_guard_err_iff (cfg : TagCfg) (hside : Lemmas.Guard.Side cfg) (g : GuardState) (tag : Nat) :
+    ((∃ e, Guard.trackStartTag cfg g tag = .error e) ↔
+      (tag ∈ cfg.guardTextSwitch ∧
+        ((g = .inSelect ∧ tag ≠ cfg.gScript ∧ tag ∉ cfg.gSelectExit) ∨
+         (∃ d, g = .inTemplateInSelect d) ∨
+         (g = .inOrAfterFrameset ∧ tag ≠ cfg.gNoframes)))) ∧
+    (∀ e, Guard.trackStartTag cfg g tag = .error e → e = .ambiguity tag) := by
+  unfold Lemmas.Guard.Side at hside
+  have hside' : cfg.gTemplate ∉ cfg.guardTextSwitch := by simpa using hside
+  cases g with
+  | default =>
+    by_cases h1 : tag = cfg.gSelect
+    · simp [Guard.trackStartTag, h1]
+    · by_cases h2 : tag = cfg.gFrameset
+      · subst h2; simp [Guard.trackStartTag, h1]
+      · simp [Guard.trackStartTag, h1, h2]
+  | inSelect =>
+    by_cases h1 : tag ∈ cfg.gSelectExit
+    · simp [Guard.trackStartTag, h1]
+    by_cases h2 : tag = cfg.gTemplate
+    · subst h2; simp [Guard.trackStartTag, h1, hside']
+    by_cases h3 : tag = cfg.gScript
+    · subst h3; simp [Guard.trackStartTag, h1, h2]
+    by_cases h4 : tag ∈ cfg.guardTextSwitch <;>
+      simp [Guard.trackStartTag, Lemmas.Guard.assert_eq, h1, h2, h3, h4]
+  | inTemplateInSelect d =>
+    by_cases h2 : tag = cfg.gTemplate
+    · subst h2; simp [Guard.trackStartTag, hside']
+    by_cases h4 : tag ∈ cfg.guardTextSwitch <;>
+      simp [Guard.trackStartTag, Lemmas.Guard.assert_eq, h2, h4]
+  | inOrAfterFrameset =>
+    by_cases h3 : tag = cfg.gNoframes
+    · simp [Guard.trackStartTag, h3]
+    by_cases h4 : tag ∈ cfg.guardTextSwitch <;>
+      simp [Guard.trackStartTag, Lemmas.Guard.assert_eq, h3, h4]
+
+/-- **Guard = specification**, for every event sequence: folding `track_start_tag` /
+`track_end_tag` from the initial state gives exactly the outcome of `Spec.Guard.run` — the same
+error at the same event, or the enum encoding of the specified context (after-frameset sticky /
+in select / number of open templates in select). -/
+theorem C03_guard_spec (cfg : TagCfg) (hside : Lemmas.Guard.Side cfg) (es : List Ev) :
+    Guard.run cfg .default es = (Spec.Guard.run cfg Spec.Guard.init es).map Spec.Guard.toGuard :=
+  Lemmas.Guard.run_sim cfg hside es Spec.Guard.init Lemmas.Guard.wf_init
+
+/-- … in particular for the tables translated from the sources. -/
+theorem C03_guard_spec_gen (es : List Ev) :
+    Guard.run Gen.Tags.cfg .default es =
+      (Spec.Guard.run Gen.Tags.cfg Spec.Guard.init es).map Spec.Guard.toGuard :=
+  C03_guard_spec _ C03_guard_side_gen es
+
+/-- non-vacuity: `<select><template><template></template><xmp>` is refused at `xmp`, and
+`<select><template></template></select><xmp>` is accepted, in model and specification alike. -/
+example :
+    let c := Gen.Tags.cfg
+    Guard.run c .default [.start c.gSelect, .start c.gTemplate, .start c.gTemplate, .end c.gTemplate,
+        .start 30293] = .error (.ambiguity 30293) ∧
+    Guard.run c .default [.start c.gSelect, .start c.gTemplate, .end c.gTemplate, .end c.gSelect,
+        .start 30293] = .ok .default := ⟨rfl, rfl⟩
+
+
+/-- The template depth stored in `InTemplateInSelect` is never 0 in a reachable state, so the
+`depth - 1` in `track_end_tag` (ambiguity_guard.rs:199, a `u64` subtraction) cannot underflow.
+(Every intermediate state of a run is the final state of a prefix run, so this covers all calls.) -/
+theorem C03_guard_depth_pos (cfg : TagCfg) (hside : Lemmas.Guard.Side cfg) (es : List Ev) (d : Nat)
+    (h : Guard.run cfg .default es = .ok (.inTemplateInSelect d)) : 1 ≤ d := by
+  rw [C03_guard_spec cfg hside es] at h
+  cases hr : Spec.Guard.run cfg Spec.Guard.init es with
+  | error e => rw [hr] at h; cases h
+  | ok s =>
+    rw [hr] at h
+    have h' : Spec.Guard.toGuard s = .inTemplateInSelect d := by
+      simpa [Except.map] using h
+    obtain ⟨f, sel, t⟩ := s
+    cases f <;> cases sel <;> simp [Spec.Guard.toGuard] at h'
+    by_cases ht : t = 0
+    · simp [ht] at h'
+    · simp [ht] at h'; omega
+
+/-- Frameset is sticky: once in `InOrAfterFrameset` the guard never leaves it. -/
+theorem C03_guard_frameset_sticky (cfg : TagCfg) (es : List Ev) (g : GuardState)
+    (h : Guard.run cfg .inOrAfterFrameset es = .ok g) : g = .inOrAfterFrameset := by
+  induction es with
+  | nil => simp [Guard.run] at h; exact h.symm
+  | cons e es ih =>
+    cases e with
+    | start t =>
+      simp only [Guard.run] at h
+      cases ht : Guard.trackStartTag cfg .inOrAfterFrameset t with
+      | error e => rw [ht] at h; cases h
+      | ok g' =>
+        rw [ht] at h
+        have : g' = .inOrAfterFrameset := by
+          unfold Guard.trackStartTag at ht
+          simp only at ht
+          repeat' split at ht
+          all_goals first | cases ht; rfl | cases ht
+        subst this
+        exact ih h
+    | «end» t =>
+      simp only [Guard.run, Guard.trackEndTag] at h
+      exact ih h
+
+/-- Documents with no `<select>` and no `<frameset>` start tag are never refused (strict mode can
+only fail after one of those two tags), and the guard stays in `Default`. -/
+theorem C03_guard_inert (cfg : TagCfg) (es : List Ev)
+    (h : ∀ e ∈ es, e ≠ .start cfg.gSelect ∧ e ≠ .start cfg.gFrameset) :
+    Guard.run cfg .default es = .ok .default := by
+  induction es with
+  | nil => rfl
+  | cons e es ih =>
+    have he := h e (by simp)
+    have ih' := ih (fun x hx => h x (by simp [hx]))
+    cases e with
+    | start t =>
+      have h1 : t ≠ cfg.gSelect := fun hh => he.1 (by rw [hh])
+      have h2 : t ≠ cfg.gFrameset := fun hh => he.2 (by rw [hh])
+      simp [Guard.run, Guard.trackStartTag, h1, h2, ih']
+    | «end» t => simp [Guard.run, Guard.trackEndTag, ih']
 
 end LolHtml.Thm.C03
